@@ -153,7 +153,7 @@ func checkC15(job *Job, res *Result) {
 		in.Stop()
 	}
 	shaOf := func(c *Cli) map[string]string {
-		return map[string]string{"@W": Sha1Sum(catScriptW), "@R": Sha1Sum(catScriptR)}
+		return map[string]string{"@W": Sha1Sum(catScriptW), "@R": Sha1Sum(catScriptR), "@F": Sha1Sum("return FIELDS.f == 1")}
 	}
 	runMode := func(mode string, frozen func(string) bool, setup func(x *Exec) (*Inst, func() *Cli), judge func(it c15Inst, i int, rep rv, changed bool, c *Cli)) {
 		x := runExec(job, frozen, func(x *Exec) {
